@@ -25,7 +25,7 @@ LEVEL = ("(Also: common dipole scales down to 1e-4, Hamiltonians whose weak coup
          "model; the spectrum scales with the square of a common dipole factor, is invariant under a common rotation "
          "and under relabelling, its frequency-unweighted integral per sum of squared dipoles is independent of the "
          "couplings; Hamiltonian, dipole operator and relaxation tensor are unchanged by the calculation."
-         " Later additions: aggregates built with the two-exciton band; fully correlated baths; the effective-lineshape calculator with and without the frequency prefactor.")
+         " Later additions: aggregates built with the two-exciton band; fully correlated baths; the effective-lineshape calculator with and without the frequency prefactor. Round five: both routes of the spectrum from dynamics; tiny couplings between nearly degenerate sites; the time axis left alone by the effective-lineshape calculator; small deterministic grid.")
 NOTE = ("Tolerance of the Fourier-sum clause is an explicit error model: 1e-3 of the peak + 2*sum_n |a(t_n)| dg(t_n) dt, "
         "where dg(t) is the deviation of a trapezoidal double integral of the sampled C(t) from the closed-form g(t) "
         "(the library integrates the samples with splines, which is required to be at least as accurate); the clause "
